@@ -516,6 +516,10 @@ def take_loop_design(c: Ctx, u: Unit, fn: ast.AST, self_: str) -> bool:
                         continue
                     if isinstance(s2, ast.Expr) and isinstance(s2.value, ast.Call) and U(s2.value.func).startswith('logger.'):
                         continue
+                    if isinstance(s2, ast.Expr) and isinstance(s2.value, ast.Call) and call_name(s2.value) == 'sort' and isinstance(s2.value.func, ast.Attribute) and isinstance(s2.value.func.value, ast.Name) \
+                            and s2.value.func.value.id in local:
+                        local[s2.value.func.value.id] = te.sort(local[s2.value.func.value.id], s2.value)  # the list of this pass, sorted in place
+                        continue
                     return False
                 if committed is None:
                     return False
